@@ -84,9 +84,40 @@ def triggers_on_error_cells(snap):
   return out
 
 
+def self_lookup_columns(snap):
+  """
+  Formula columns whose formula looks records up in their own table by the column itself (directly, e.g.
+  B = T.lookupOne(B=$K).K, or by another formula column of the table that reads the column): the
+  trigger state of the open finding C05/cycle_detection_incremental_vs_scratch (whether such a cell
+  holds a value or CircularRefError depends on which cells happened to be dirty, so a later full
+  recalculation - which undo, redo, rollback or reload cause - changes it). Returns {(table, col)}.
+  """
+  import re
+  T = rows_of(snap, '_grist_Tables')
+  C = rows_of(snap, '_grist_Tables_column')
+  by_table = {}
+  for c in C.values():
+    if c['parentId'] in T:
+      by_table.setdefault(T[c['parentId']]['tableId'], []).append(c)
+  out = set()
+  for tid, cols in by_table.items():
+    fcols = {c['colId']: (c.get('formula') or '') for c in cols if c.get('isFormula') and c.get('formula')}
+    for cid, f in fcols.items():
+      m = re.findall(r'\b%s\.lookup(?:Records|One)\(((?:[^()]|\([^()]*\))*)\)' % re.escape(tid), f)
+      for args in m:
+        for k in re.findall(r'\b([A-Za-z_][A-Za-z0-9_]*)\s*=(?!=)', args):
+          if k == cid:
+            out.add((tid, cid))
+          elif k in fcols and re.search(r'(\$|rec\.)%s\b' % re.escape(cid), fcols[k]):
+            out.add((tid, cid))
+  return out
+
+
 def open_finding_triggers(snap):
   """Names of the open findings whose trigger state the document is in (DESIGN.md 3.6)."""
   out = []
+  if self_lookup_columns(snap):
+    out.append('cycle_detection_incremental_vs_scratch')
   if summaries_with_error_keys(snap):
     out.append('summary_rows_with_error_keys')
   if triggers_on_error_cells(snap):
@@ -294,9 +325,41 @@ def c11(S1):
 
 
 # ------------------------------------------------------------------------------------------ C12
-def c12(S1):
-  """Summary tables are exact group-bys. Returns (msgs, n_summary_rows_checked)."""
+LOOKUP_OPTION_NAMES = ('order_by', 'sort_by')
+
+
+def is_error(v):
+  return isinstance(v, list) and len(v) > 0 and v[0] == 'E'
+
+
+def c12_key_part(v, typ):
+  """
+  One component of a group-by key as the statement counts keys: by the *value the cell denotes*.
+  A Date cell denotes a calendar day (the engine hands formulas a date object), so any timestamp of
+  that day is the same key; -0.0 is 0.0. Everything else is the encoded value as it is.
+  """
+  if is_num(v):
+    if typ == 'Date' and v == v and abs(v) < 1e14:
+      return float((v // 86400) * 86400)
+    return 0.0 if v == 0 else v
+  return v
+
+
+def c12(S1, stats=None):
+  """
+  Summary tables are exact group-bys. Returns (msgs, n_summary_rows_checked).
+  Mechanism keys: missing_row / extra_row / duplicate_key / group, and the two mechanisms of open
+  findings: negative_ref_key_without_summary_row (a source row whose Ref/RefList group-by cell holds a
+  negative id is reported apart, so that it cannot hide other missing keys) and
+  groupby_column_named_like_lookup_option (everything reported for a summary table one of whose
+  group-by columns is called order_by / sort_by).
+  Cases the statement does not decide are skipped and counted in `stats`.
+  """
   msgs = []
+  if stats is None:
+    stats = {}
+  def skip(why):
+    stats['skipped.' + why] = stats.get('skipped.' + why, 0) + 1
   T = rows_of(S1, '_grist_Tables')
   C = rows_of(S1, '_grist_Tables_column')
   nrows = 0
@@ -311,22 +374,44 @@ def c12(S1):
     gcols.sort()
     if st not in S1 or src not in S1:
       continue
-    if 'group' not in S1[st][1]:
-      continue     # no longer recognisable as a summary table: outside the statement
+    grp = [c for c in C.values() if c['parentId'] == tr and c['colId'] == 'group']
+    if ('group' not in S1[st][1] or not grp or not grp[0]['isFormula'] or
+        'getSummarySourceGroup' not in (grp[0]['formula'] or '') or grp[0]['type'] != 'RefList:' + src):
+      skip('group_column_changed')     # no longer what the engine recognises as a summary table
+      continue
     srows = rows_of(S1, src)
     strows = rows_of(S1, st)
-    skip = False
+    if any(sc not in S1[src][1] or gc not in S1[st][1] for (gc, sc, typ) in gcols):
+      skip('groupby_column_not_in_snapshot')
+      continue
+    # Values that Python hashes equal but that are of different kinds (True and 1, False and 0): the
+    # statement does not say whether they are one key or two.
+    mixed = False
+    for (gc, sc, typ) in gcols:
+      vals = []
+      for r in srows:
+        v = srows[r][sc]
+        l = dec_list(v)
+        vals.extend(l if isinstance(l, list) else [v])
+      bools = set(x for x in vals if isinstance(x, bool))
+      if any(is_num(x) and x in (0, 1) and bool(x) in bools for x in vals):
+        mixed = True
+    if mixed:
+      skip('bool_and_number_keys_mixed')
+      continue
+    if any(is_error(srows[r][sc]) for r in srows for (gc, sc, typ) in gcols):
+      skip('error_in_groupby_cell')    # rows with error keys are outside the statement (and C05's open finding)
+      continue
+    named_like_option = any(gc in LOOKUP_OPTION_NAMES or sc in LOOKUP_OPTION_NAMES for (gc, sc, typ) in gcols)
+    def mech_of(m):
+      return 'groupby_column_named_like_lookup_option' if named_like_option else m
     expected = {}
+    negative = {}
     for r in sorted(srows):
       comps = []
+      neg = False
       for (gc, sc, typ) in gcols:
-        if sc not in srows[r]:
-          skip = True
-          break
         v = srows[r][sc]
-        if isinstance(v, list) and v and v[0] == 'E':
-          comps = None     # error value in a group-by cell: row outside the statement
-          break
         if typ == 'ChoiceList' or typ.startswith('RefList:'):
           l = dec_list(v)
           if l is None or l == []:
@@ -334,38 +419,44 @@ def c12(S1):
           elif isinstance(l, list):
             seen = []
             for x in l:
+              x = c12_key_part(x, typ)
               if x not in seen:
                 seen.append(x)
             comps.append(seen)
           else:
-            comps.append([])
+            comps.append([])      # a non-list value in a list column contributes no key
         else:
-          comps.append([v])
-      if skip:
-        break
-      if comps is None:
-        expected = None
-        break
+          comps.append([c12_key_part(v, typ)])
+        if typ.startswith(('Ref:', 'RefList:')) and any(is_num(x) and x < 0 for x in comps[-1]):
+          neg = True
       for key in itertools.product(*comps):
-        expected.setdefault(repr(list(key)), []).append(float(r))
-    if skip or expected is None:
-      continue
+        isneg = neg and any(is_num(x) and x < 0 and typ.startswith(('Ref:', 'RefList:'))
+                            for x, (gc, sc, typ) in zip(key, gcols))
+        (negative if isneg else expected).setdefault(repr(list(key)), []).append(float(r))
     got = {}
     for r, row in strows.items():
-      key = repr([row[gc] for (gc, sc, typ) in gcols])
+      key = repr([c12_key_part(row[gc], typ) for (gc, sc, typ) in gcols])
       nrows += 1
       if key in got:
-        msgs.append(('duplicate_key', '%s has two rows with key %s' % (st, key)))
+        msgs.append((mech_of('duplicate_key'), '%s has two rows with key %s' % (st, key)))
       got[key] = row.get('group')
+    by = [g[1] for g in gcols]
+    negmiss = sorted(set(negative) - set(got))
+    if negmiss:
+      msgs.append((mech_of('negative_ref_key_without_summary_row'),
+                   '%s (by %s of %s): no row for keys %s, which hold a negative id in a reference column' % (
+                       st, by, src, negmiss[:3])))
+    for k in set(negative) & set(got):
+      expected[k] = negative[k]
     if set(got) != set(expected):
       miss = sorted(set(expected) - set(got))[:3]
       extra = sorted(set(got) - set(expected))[:3]
       mech = 'missing_row' if miss else 'extra_row'
-      msgs.append((mech, '%s (by %s of %s): missing keys %s, extra keys %s' % (st, [g[1] for g in gcols], src, miss, extra)))
-    for k in set(got) & set(expected):
+      msgs.append((mech_of(mech), '%s (by %s of %s): missing keys %s, extra keys %s' % (st, by, src, miss, extra)))
+    for k in sorted(set(got) & set(expected)):
       g = dec_list(got[k])
       if g != expected[k]:
-        msgs.append(('group', '%s group of key %s is %s, source rows with that key are %s' % (st, k, g, expected[k])))
+        msgs.append((mech_of('group'), '%s group of key %s is %s, source rows with that key are %s' % (st, k, g, expected[k])))
   return msgs, nrows
 
 
